@@ -71,3 +71,19 @@ Theorem C03_command_lengths_match_lorawan :
   map (fun e => (fst (fst e), snd (fst e))) ul_mac_table = map (fun c => (fst (fst c), Some (snd c))) lw_mac_commands.
 Proof. split; reflexivity. Qed.
 
+
+(* the public payload constructors XPayload::new(bytes): a view they return is exactly as long as its accessors need *)
+From LoraV Require Import Proofs.PayloadNew.
+Theorem C03_fixed_constructor_view : forall len data v, fixed_new len data = Some v -> length v = len /\ v = data.
+Proof. exact fixed_new_view. Qed.
+Theorem C03_mcgroupstatus_constructor_view : forall data v, mcstatus_new data = Some v ->
+  (1 <= length v)%nat /\ length v = (1 + popcount4 4 (mcstatus_mask v) * 5)%nat /\ nthN v 0 = nthN data 0 /\
+  v = firstn (1 + popcount4 4 (mcstatus_mask v) * 5) data /\
+  length (mcstatus_items (S (popcount4 4 (mcstatus_mask v))) (skipn 1 v)) = popcount4 4 (mcstatus_mask v) /\
+  Forall (fun it => length it = 5%nat) (mcstatus_items (S (popcount4 4 (mcstatus_mask v))) (skipn 1 v)).
+Proof. exact mcstatus_new_view. Qed.
+Theorem C03_mcgroupstatus_constructor_refuses_short : forall data,
+  (length data < 1 + popcount4 4 (N.land (nthN data 0) 0x0f%N) * 5)%nat -> mcstatus_new data = None.
+Proof. exact mcstatus_new_refuses_short. Qed.
+Theorem C03_constructor_matches_iterator : forall data v, mcstatus_new data = Some v -> length v = var_len 1 data.
+Proof. exact mcstatus_new_matches_var_len. Qed.
